@@ -14,3 +14,4 @@ import Gomjml.Props.C04
 #print axioms Gomjml.Props.C04.C04_void_normaliser_keeps_text
 #print axioms Gomjml.Props.C04.C04_void_normaliser_respells_only
 #print axioms Gomjml.Props.C04.C04_text_content_delivered
+#print axioms Gomjml.Props.C04.C04_text_content_delivered_behind_cdata
